@@ -98,10 +98,16 @@ def lean_build(prop=None, timeout=3000):
         log += p.stdout
         ok = p.returncode == 0
         if not ok and prop is not None:
-            targets = [f"Tdgl.Props.{f.stem}" for f in prop_files(prop)] + ["driver"]
-            q = subprocess.run(["lake", "build"] + targets, cwd=LEAN, stdout=subprocess.PIPE, stderr=subprocess.STDOUT, text=True, timeout=timeout)
-            log += "\n--- per-property build ---\n" + q.stdout
-            ok = q.returncode == 0
+            # one target at a time: a module that no longer builds (typically a bridge to regenerated definitions) must
+            # not keep the theorems of the property's other modules from being checked
+            ok = True
+            for tgt in [f"Tdgl.Props.{f.stem}" for f in prop_files(prop)] + ["driver"]:
+                q = subprocess.run(["lake", "build", tgt], cwd=LEAN, stdout=subprocess.PIPE, stderr=subprocess.STDOUT, text=True, timeout=timeout)
+                if q.returncode != 0:
+                    ok = False
+                    log += f"\n--- per-module build: {tgt} FAILED ---\n" + q.stdout[-2500:]
+                else:
+                    log += f"\n--- per-module build: {tgt} ok ---\n"
         return ok, log, time.time() - t0
 
 
@@ -143,24 +149,28 @@ def axiom_audit(prop: str, timeout=900):
     if not names:
         return {}
     WORK.mkdir(exist_ok=True)
-    af = WORK / f"audit_{prop}_{os.getpid()}.lean"
-    body = "".join(f"import Tdgl.Props.{f.stem}\n" for f in prop_files(prop)) + "".join(f"#print axioms Tdgl.{prop}.{n}\n" for n in names)
-    af.write_text(body)
-    try:
-        p = subprocess.run(
-            ["lake", "env", "lean", str(af)], cwd=LEAN, stdout=subprocess.PIPE, stderr=subprocess.STDOUT, text=True, timeout=timeout
-        )
-    finally:
-        af.unlink(missing_ok=True)
-    out = p.stdout
     res = {n: None for n in names}
-    flat = re.sub(r"\s+", " ", out)
-    for n in names:
-        m = re.search(rf"'Tdgl\.{prop}\.{n}' depends on axioms: \[([^\]]*)\]", flat)
-        if m:
-            res[n] = sorted(a.strip() for a in m.group(1).split(",") if a.strip())
-        elif re.search(rf"'Tdgl\.{prop}\.{n}' does not depend on any axioms", flat):
-            res[n] = []
+    out = ""
+    # one audit file per module: a module that did not build leaves only its own theorems unchecked
+    for f in prop_files(prop):
+        src = _strip_comments(f.read_text())
+        mine = re.findall(rf"^\s*theorem\s+({prop}_\w+)", src, flags=re.M)
+        if not mine:
+            continue
+        af = WORK / f"audit_{prop}_{f.stem}_{os.getpid()}.lean"
+        af.write_text(f"import Tdgl.Props.{f.stem}\n" + "".join(f"#print axioms Tdgl.{prop}.{n}\n" for n in mine))
+        try:
+            p = subprocess.run(["lake", "env", "lean", str(af)], cwd=LEAN, stdout=subprocess.PIPE, stderr=subprocess.STDOUT, text=True, timeout=timeout)
+        finally:
+            af.unlink(missing_ok=True)
+        out += p.stdout
+        flat = re.sub(r"\s+", " ", p.stdout)
+        for n in mine:
+            m = re.search(rf"'Tdgl\.{prop}\.{n}' depends on axioms: \[([^\]]*)\]", flat)
+            if m:
+                res[n] = sorted(a.strip() for a in m.group(1).split(",") if a.strip())
+            elif re.search(rf"'Tdgl\.{prop}\.{n}' does not depend on any axioms", flat):
+                res[n] = []
     return res, out
 
 
